@@ -46,6 +46,13 @@ Proof.
   intros [|n] [|x r] H; cbn [firstn sincr] in *; try exact I. now apply firstn_incr.
 Qed.
 
+Lemma Forall_firstn' : forall (P : N -> Prop) n l, Forall P l -> Forall P (firstn n l).
+Proof.
+  intros P. induction n as [|n IH]; intros [|x r] H; cbn [firstn]; try constructor.
+  - inversion H; assumption.
+  - inversion H; subst. now apply IH.
+Qed.
+
 (* contiguous pieces keep the order *)
 Lemma skip_while_gt : forall (p : N * N -> bool) l lo, incr_gt lo (map fst l) -> incr_gt lo (map fst (skip_while p l)).
 Proof.
@@ -126,7 +133,7 @@ Proof.
         induction acc as [|y acc' IHa]; cbn [insert_sorted]; [constructor; [assumption|constructor]|].
         inversion Ha; subst. destruct (x <? y); [constructor; assumption|]. destruct (x =? y); [assumption|].
         constructor; [assumption | now apply IHa]. }
-      apply G; [|constructor]. rewrite Forall_forall. intros x Hx. apply filter_In in Hx. destruct Hx as (_ & Hx).
+      apply Forall_firstn'. apply G; [|constructor]. rewrite Forall_forall. intros x Hx. apply filter_In in Hx. destruct Hx as (_ & Hx).
       destruct (N.eqb_spec x 0); [discriminate | lia]. }
     rewrite <- Hf in Hpos. inversion Hpos; subst. assumption.
 Qed.
